@@ -4,6 +4,8 @@ I : Lean spec inflater  vs Go reference inflater vs compress/flate (valid, fault
 W : Lean Writer control model with replayed leaves vs the implementation, lock-step counters/results/destination calls
 R : Lean Reader control model (bufio + step/Read bookkeeping) with a replayed decoder vs the implementation, lock-step
 H : Lean control model of the Huffman-only compressor (level -2) with a replayed block encoder vs the implementation, lock-step
+ZW, GW : Lean control models of zlib.Writer / gzip.Writer (lazy header, sticky error, closed flag, checksum, trailer) over the
+    flate Writer control model with replayed leaves vs the implementation, lock-step incl. header and trailer bytes
 G : Lean leaf-contract check `checkGen` (proved to imply Sound.gen and the C19 window discipline for the call) applied to
     recorded match-finder calls: buffer given, tokens appended; at EVERY acceleration level (Go and assembly finders)
 K : Lean checksum / gzip / zlib header and trailer definitions vs hash/crc32, hash/adler32 and fastgo's container bytes
@@ -14,20 +16,20 @@ KINDS = {
     "C03": ["I", "R"],
     "C04": ["R"],
     "C05": ["R"],
-    "C06": ["K"],
+    "C06": ["K", "ZW", "GW"],
     "C07": ["K"],
     "C08": ["K"],
     "C09": ["W"],
-    "C10": ["I", "W", "H", "G"],
+    "C10": ["I", "W", "H", "ZW", "GW", "G"],
     "C11": ["R"],
-    "C12": ["W"],
+    "C12": ["W", "ZW", "GW"],
     "C13": ["R"],
-    "C14": ["W"],
+    "C14": ["W", "ZW", "GW"],
     "C15": ["R"],
-    "C16": ["W"],
+    "C16": ["W", "ZW", "GW"],
     "C18": ["R", "W", "G"],
     "C19": ["I", "W", "G"],
     "C20": ["W", "H", "G"],
 }
-COUNT = {"I": (300, 3000), "W": (600, 6000), "R": (400, 4000), "K": (600, 6000), "G": (600, 6000), "H": (400, 4000)}
+COUNT = {"I": (300, 3000), "W": (600, 6000), "R": (400, 4000), "K": (600, 6000), "G": (600, 6000), "H": (400, 4000), "ZW": (300, 3000), "GW": (300, 3000)}
 PER_LEVEL = {"G"}
